@@ -17,6 +17,7 @@ in/out sets and the visiting trace with `mirdrv_c19d`).
 * `bitmap_flag_never_under_reports` / `bitmap_flag_never_over_reports`: the flag returned by the bitmap model's
   op2/op3 (any operation function, heap and aliasing) is the exact set-level flag, i.e. the generator's
   bitmap callbacks meet `Exact`.
+* `pending_nodup`: the array built for the next pass holds no block twice (the `bb_to_consider` test).
 * `solve_fuel_irrelevant`: the result does not depend on the fuel.
 * Not proved: termination (needs monotonicity and finite height of the caller's lattice); the
   theorem is stated for any fuel that suffices.
@@ -56,6 +57,12 @@ theorem solve_fuel_irrelevant {V : Type} (P : Problem V) (sort : List Nat → Li
   induction m with
   | zero => exact h
   | succ m ih => exact loop_fuel_mono P sort (k + m) true σ0 _ σ' ih
+
+/-- `bb_to_consider` does its job: the array handed to the next pass never holds a block twice (so, its
+    elements being block indexes below `n`, the worklist never outgrows the CFG) -/
+theorem pending_nodup {V : Type} (P : Problem V) (first : Bool) (σ : St V) (w : List Nat) :
+    (pass P first σ w).2.Nodup :=
+  fold_nodup P first w σ [] List.nodup_nil
 
 /-! Non-vacuity: reaching-definitions style problem over bit masks on the CFG
     0 → 1 → 2 → 1 (loop), 2 → 3: the solver needs three passes and returns the least solution. -/
